@@ -151,6 +151,7 @@ def run(ctx, rep):
     rep.floor('balance-write-sites', n_sites, 15)
     check_pairs(fx, rep)
     check_failed_transfer(fx, rep)
+    check_alias_safety(fx, rep)
     check_create_guard(fx, rep)
     check_deduction(fx, rep)
     rep.assume('database-layer balance changes (State::increment_balances / drain_balances, CacheDB) are outside a transaction and outside this property')
@@ -220,6 +221,59 @@ def check_pairs(fx, rep):
             rep.ok('R2-same-amount', 'selfdestruct', 'credit and both journal entries carry the destroyed account\'s balance')
         else:
             rep.violation('R2-same-amount', 'selfdestruct', 'amounts differ: %s' % [[o.render() for o in oo] for oo in amounts], f.where())
+
+
+def check_alias_safety(fx, rep):
+    """R5: transfer(from, to) must stay correct when both addresses name one account.  Both balances
+    are looked up by parameter and written after both results are known, so the credit has to be
+    computed from the debited balance on the `from == to` edge (or the credit must read the balance
+    after the debit was stored)."""
+    f = fx.fns.get(JS + 'transfer')
+    if f is None:
+        return
+    og = Origins(f, fx)
+    cfg = cfg_of(f)
+    subs = [(bi, t) for bi, t in f.calls() if (t.callee or '').split('::')[-1] == 'checked_sub']
+    adds = [(bi, t) for bi, t in f.calls() if (t.callee or '').split('::')[-1] == 'checked_add']
+    if len(subs) != 1 or len(adds) != 1:
+        rep.undecided('R5-self-transfer', 'transfer', 'expected one checked_sub and one checked_add', f.where())
+        return
+    sb, st = subs[0]
+    ab, at = adds[0]
+    base = og.of_operand(at.args[0])
+    # (b) the credited base has two origins: the debit's result (used under from == to) and the recipient's balance
+    from_debit = [o for o in base if o.root[0] == 'call' and o.root[2] == sb]
+    from_balance = [o for o in base if o.path[-2:] == ('.info', '.balance')]
+    eq_guard = False
+    for b in f.blocks:
+        if b.cleanup or b.term.kind != 'switch':
+            continue
+        for o in og.of_operand(b.term.switch_discr()):
+            if o.root[0] == 'call' and o.root[1].endswith(('PartialEq::eq', 'PartialEq::ne')):
+                t = f.blocks[o.root[2]].term
+                a = og.of_operand(t.args[0])
+                c = og.of_operand(t.args[1])
+                ps = {x.root for x in a} | {x.root for x in c}
+                if ps == {('param', 2), ('param', 3)}:
+                    eq_guard = True
+    # (a) sequential read-modify-write: the debit is stored before the recipient's balance is read
+    stores = []
+    for b in f.blocks:
+        if b.cleanup:
+            continue
+        for s in b.stmts:
+            if s.kind == 'assign' and s.rv.rv == 'use' and s.place.b != 0:
+                oo = og.of_place(s.place)
+                if any(o.path[-2:] == ('.info', '.balance') for o in oo) and ('*' in s.place.pr or s.place.pr[-1:] == ('.balance',)):
+                    vo = og.of_operand(s.rv.ops[0])
+                    if any(x.root[0] == 'call' and x.root[2] == sb for x in vo):
+                        stores.append(b.i)
+    sequential = any(cfg.dominates(sbk, ab) for sbk in stores)
+    if (from_debit and from_balance and eq_guard) or sequential:
+        rep.ok('R5-self-transfer', 'transfer', 'credit is computed from the debited balance when from == to' if not sequential else 'debit stored before the recipient balance is read')
+    else:
+        rep.violation('R5-self-transfer', 'transfer',
+                      'transfer computes the credit from the recipient\'s undebited balance and writes it after the debit: when from == to the credit overwrites the debit and the value is minted', f.where(ab))
 
 
 def check_failed_transfer(fx, rep):
